@@ -36,6 +36,7 @@ def install(prog):
         if s in ('libc::SIG_DFL', 'libc::SIG_BLOCK'): return 0
         if s in ('libc::SIG_IGN', 'libc::SIG_UNBLOCK'): return 1
         if s == 'libc::SIG_SETMASK': return 2
+        if s in ('std::path::MAIN_SEPARATOR', 'MAIN_SEPARATOR', 'path::MAIN_SEPARATOR'): return 47
         return NotImplemented
     prog.const_models.append(const_model)
     @M('<WaitPidFlag as BitOr>::bitor')
